@@ -349,6 +349,11 @@ def guarded_clause(ctx, rule, fn, construct, thunk):
     except Undecided as u:
         ctx.ob(rule, "kernel summarised", False, fn, "kernel-undecided:" + construct,
                detail="kernel-undecided: %s (a construct outside the summarisation model lies on the path to a compared output)" % u.what)
+    except (AttributeError, KeyError, TypeError, IndexError) as ex:
+        # a compared output does not have the shape the clause reads (an opaque value where a struct / matrix is expected): the
+        # summary of that output failed upstream — undecided, not an internal error
+        ctx.ob(rule, "kernel summarised", False, fn, "kernel-undecided:" + construct,
+               detail="kernel-undecided: a compared output is not summarised in the expected shape (%s: %s)" % (type(ex).__name__, ex))
 
 
 # ---------------------------------------------------------------------------------------------------
